@@ -138,6 +138,104 @@ func ruleLzmaHeaderDict(c *Ctx, r *Report, prefix string) {
 	}
 	r.Check(okEnc && nCall >= 1, rule, FnName(nw), c.Pos(nw.Pos()), "newEncoderDict gets the header's / the configured dictionary capacity",
 		"the classic writer creates its encoder dictionary with a capacity that is neither header.dictCap nor WriterConfig.DictCap")
+	// (c) nothing else in the classic writer's cone changes the announced size on its way into the stream,
+	// except through a function g(dictCap, size) that never announces less than a match can reach back:
+	// g >= min(dictCap, size) for a known size, g == dictCap otherwise (evaluated, CE, on a grid around the
+	// sizes 2^n and 3*2^(n-1) the reference encoder rounds to).
+	fS := c.Field("lzma", "header.size")
+	cone := c.Cone(nonNilFns(c.Func("lzma", "NewWriter"), nw, c.Func("lzma", "Writer.Write"), c.Func("lzma", "Writer.Close"))...)
+	nFn, nOther, bad := 0, 0, ""
+	for _, fn := range sortedFuncs(cone) {
+		if fn == hd || fn == nw || fn.Blocks == nil || pkgPathOf(fn) != full("lzma") || c.IsNew(fn) {
+			continue // new helpers are scanned with the known function that calls them (GB)
+		}
+		nFn++
+		for _, b := range c.GB(fn) {
+			if b.Parent() == hd || b.Parent() == nw {
+				continue
+			}
+			for _, ins := range b.Instrs {
+				st, ok := storeToField(ins, fH)
+				if !ok {
+					continue
+				}
+				nOther++
+				v := stripConv(st.Val)
+				if isFieldLoadOf(v, fH) || isFieldLoadOf(v, fC) {
+					continue
+				}
+				if msg := hdrDictFuncOK(c, v, fH, fS); msg != "" && bad == "" {
+					bad = "the dictionary size of the .lzma header is overwritten at " + c.InstrPos(ins) + ": " + msg
+				}
+			}
+		}
+	}
+	r.Check(bad == "" && nFn >= 5, rule, "writer-cone:header.dictCap", c.Pos(nw.Pos()),
+		fmt.Sprintf("%d functions of the classic writer's cone scanned, %d further stores to header.dictCap, none announces less than the encoder's matches can reach", nFn, nOther), bad)
+}
+
+// hdrDictFuncOK: v is a call g(..) of a module function whose arguments are the header's dictCap and size;
+// g is evaluated on a grid. Returns "" when g never announces too little.
+func hdrDictFuncOK(c *Ctx, v ssa.Value, fH, fS *types.Var) string {
+	call, ok := v.(*ssa.Call)
+	if !ok {
+		return "the new value is neither the configured DictCap nor a function of (dictCap, size) that can be evaluated"
+	}
+	g := call.Call.StaticCallee()
+	if g == nil || !c.InModule(g) || g.Blocks == nil || call.Call.IsInvoke() {
+		return "the new value comes from a call that cannot be evaluated"
+	}
+	role := make([]int, len(call.Call.Args)) // 1 dictCap, 2 size
+	for i, a := range call.Call.Args {
+		switch {
+		case isFieldLoadOf(a, fH):
+			role[i] = 1
+		case fS != nil && isFieldLoadOf(a, fS):
+			role[i] = 2
+		default:
+			return "argument " + fmt.Sprint(i) + " of " + FnName(g) + " is neither header.dictCap nor header.size"
+		}
+	}
+	caps := []int64{4096, 6144, 8192, 65536, 1<<20 + 4096, 8 << 20}
+	var sizes []int64
+	sizes = append(sizes, -1, 0, 1, 100)
+	for n := uint(12); n <= 23; n++ {
+		p := int64(1) << n
+		for _, b := range []int64{p, p + p/2} {
+			sizes = append(sizes, b-1, b, b+1, b+b/8, b+b/3)
+		}
+	}
+	n := 0
+	for _, dc := range caps {
+		for _, sz := range sizes {
+			var args []aval
+			for i, ro := range role {
+				t := g.Signature.Params().At(i).Type()
+				if ro == 1 {
+					args = append(args, aInt(dc, t))
+				} else {
+					args = append(args, aInt(sz, t))
+				}
+			}
+			res := NewInterp(c).Call(g, args)
+			if !res.OK || res.Panicked || len(res.Rets) != 1 {
+				return fmt.Sprintf("%s(dictCap=%d, size=%d) cannot be evaluated", FnName(g), dc, sz)
+			}
+			got, isInt := res.Rets[0].Int()
+			if !isInt {
+				return fmt.Sprintf("%s(dictCap=%d, size=%d) has no concrete value", FnName(g), dc, sz)
+			}
+			need := dc
+			if sz >= 0 && sz < dc {
+				need = sz
+			}
+			if got < need || (sz < 0 && got != dc) {
+				return fmt.Sprintf("%s(dictCap=%d, size=%d) = %d: the encoder finds matches up to %d bytes back, a decoder that allocates the announced window cannot resolve them", FnName(g), dc, sz, got, need)
+			}
+			n++
+		}
+	}
+	return ""
 }
 
 // ---- CE-DEFAULT-CTYPE: what the LZMA2 writer announces for the next compressed chunk ----
